@@ -1066,6 +1066,10 @@ fn main() {
                     "body": &src.text[bo..bc_end],
                     "out_start": fn_out_start, "out_end": ob.line,
                     "loops": scan.loops.len(),
+                    // loops / closures of the body that the template has no contract section for (a loop without an invariant
+                    // or a closure without a contract cannot carry a proof: "needs contract", never a violation)
+                    "unannotated_loops": scan.loops.len() as i64 - r.sections.iter().filter(|s| s.kind == "loop").map(|s| s.args.get(0).cloned().unwrap_or_default()).collect::<std::collections::BTreeSet<_>>().len() as i64,
+                    "unannotated_closures": scan.closures.len() as i64 - r.sections.iter().filter(|s| s.kind == "closure").map(|s| s.args.get(0).cloned().unwrap_or_default()).collect::<std::collections::BTreeSet<_>>().len() as i64,
                     "rewrites": scan.rewrites.iter().map(|(a, _b, t, rule)| json!({"rule": rule, "src_line": src.line_of(*a), "to": t}))
                         .chain(edits.iter().filter(|e| e.4["kind"] == "rewrite" && e.4.get("src_line").is_none()).map(|e| json!({"rule": e.4["rule"], "src_line": src.line_of(e.0), "to": e.3})))
                         .collect::<Vec<_>>(),
